@@ -83,6 +83,9 @@ func makeOverlay(dir string, u Unit) (string, error) {
 	}
 	for _, e := range ents {
 		n := e.Name()
+		if u.KeepRepoTests {
+			break
+		}
 		if strings.HasSuffix(n, "_test.go") && !strings.HasPrefix(n, "zz_") {
 			repl[filepath.Join(pdir, n)] = ""
 		}
